@@ -270,13 +270,19 @@ func sweep(entries []common.Entry) {
 			r.s.Show()
 			// control characters are never shown as themselves (a cell holding one is a blank)
 			// and no fallback is registered for them: CanDisplay is false either way
+			var never []rune
 			for cr := rune(0); cr < 0xa0; cr++ {
-				if cr >= 0x20 && cr < 0x7f {
-					continue
+				if cr < 0x20 || cr >= 0x7f {
+					never = append(never, cr)
 				}
+			}
+			// neither are code points that are no characters at all: surrogates, noncharacters,
+			// values beyond U+10FFFF or below zero
+			never = append(never, 0xd800, 0xdbff, 0xdfff, 0xfdd0, 0xfdef, 0xfffe, 0xffff, 0x1fffe, 0x10ffff, 0x110000, -1)
+			for _, cr := range never {
 				w.R.Evaluations++
 				if r.s.CanDisplay(cr, false) || r.s.CanDisplay(cr, true) {
-					w.Violation("candisplay-control:"+cls+":"+cs.name, fmt.Sprintf("%s (%s), charset %s: CanDisplay(U+%04X) = (%v,%v), but a cell holding this control character is shown as a blank, never as the rune or a substitute", e.Name, cls, cs.name, cr, r.s.CanDisplay(cr, false), r.s.CanDisplay(cr, true)),
+					w.Violation("candisplay-control:"+cls+":"+cs.name, fmt.Sprintf("%s (%s), charset %s: CanDisplay(U+%04X) = (%v,%v), but a cell holding this control character or non-character is shown as a blank, never as the rune or a substitute", e.Name, cls, cs.name, cr, r.s.CanDisplay(cr, false), r.s.CanDisplay(cr, true)),
 						map[string]interface{}{"entry": e.Name, "charset": cs.name, "rune": cr})
 					break
 				}
